@@ -1,8 +1,24 @@
 import PynProofs.Restrict
+import PynModel.Kernels.Count
+import PynModel.Kernels.ValueFrom
+import PynModel.Kernels.Process
 import PynModel.Kernels.Threshold
 /-!
 # C15 — compiled kernels stay inside their arrays and read only assigned variables
-(placeholder list of theorems is extended below as proofs are added)
+
+Two kinds of kernel model (DESIGN §2.2):
+* **total models** — `jitrestrict`, `jitrestrict_with_count`, `jitin_interval`, `jitremove_nan`,
+  `jitintersect`, `jitunion`, `jitdiff`, `jitunion_isets`, `_jitfix_iset`, `_cross_correlogram`,
+  `_overlap_split`: every array read of the Python source sits under a guard that implies it is in
+  bounds and is written `a[i]'h` in the model; Lean demands the proof `h` when the definition is
+  elaborated, so the definitions themselves are the machine-checked bounds arguments (for ALL inputs),
+  and no local is read before assignment (there are no `Option` locals left after `fix:` eba7cfb).
+* **checked models** — `jitcount` / `_jitbin_array`, `jitvaluefrom`, `_jitcontinuous_perievent`,
+  `jitthreshold`: some reads have no syntactic guard (`count[k]`, `time_array[t + count[k]]`, `ends[k]`
+  …); the model returns `Except.error .oob` there and the theorems below prove the error unreachable
+  under exactly what the public callers guarantee.
+`_jitperievent_trigger_average` has no Lean model: it is covered by the interpreted-vs-compiled
+outcome tie of the check only.
 -/
 namespace Pyn.C15
 open Pyn
@@ -19,5 +35,295 @@ def isOob {α} : R α → Bool
 
 theorem threshold_oob_witness : isOob (jitthreshold #[1] #[true] #[0] #[5]) = true := by decide +kernel
 theorem threshold_oob_witness_empty : isOob (jitthreshold #[] #[] #[] #[]) = true := by decide +kernel
+
+
+def asum (a : Array Nat) : Nat := a.toList.sum
+
+theorem psum_succ (a : Array Nat) (k : Nat) (h : k < a.size) : psum a (k+1) = psum a k + a[k] := by
+  unfold psum
+  rw [List.take_succ]
+  simp [List.getElem?_eq_getElem (by simpa using h : k < a.toList.length)]
+
+theorem psum_le_asum (a : Array Nat) (k : Nat) : psum a k ≤ asum a := by
+  unfold psum asum
+  have : a.toList = a.toList.take k ++ a.toList.drop k := (List.take_append_drop k _).symm
+  have e : a.toList.sum = (a.toList.take k).sum + (a.toList.drop k).sum := by
+    rw [← List.sum_append, List.take_append_drop]
+  omega
+
+theorem modify_sum (a : Array Nat) (k : Nat) (h : k < a.size) : asum (a.modify k (· + 1)) = asum a + 1 := by
+  unfold asum
+  rw [Array.toList_modify]
+  have hk : k < a.toList.length := by simpa using h
+  clear h
+  generalize a.toList = l at hk
+  induction l generalizing k with
+  | nil => simp at hk
+  | cons x xs ih =>
+    cases k with
+    | zero => simp [List.modify]; omega
+    | succ k =>
+      simp only [List.modify_succ_cons, List.sum_cons]
+      rw [ih k (by simpa using hk)]; omega
+
+theorem insideC_inv (ts : Array Int) (e : Int) (k t : Nat) (acc cnt : Array Nat) (hk : k < cnt.size) :
+    (insideC ts e k t acc cnt).2.2.2.size = cnt.size ∧
+    asum (insideC ts e k t acc cnt).2.2.2 + acc.size = asum cnt + (insideC ts e k t acc cnt).2.2.1.size := by
+  fun_induction insideC ts e k t acc cnt with
+  | case1 t acc cnt h hgt => exact ⟨rfl, rfl⟩
+  | case2 t acc cnt h hle ih =>
+    have hs : (cnt.modify k (· + 1)).size = cnt.size := by simp
+    obtain ⟨i1, i2⟩ := ih (by rw [hs]; exact hk)
+    refine ⟨by rw [i1, hs], ?_⟩
+    rw [modify_sum cnt k hk] at i2
+    simp only [Array.size_push] at i2
+    omega
+  | case3 t acc cnt h => exact ⟨rfl, rfl⟩
+
+theorem outerC_inv (ts st en : Array Int) (hm : st.size = en.size) (k t : Nat) (acc cnt : Array Nat)
+    (hc : cnt.size = st.size) :
+    (outerC ts st en hm k t acc cnt).2.size = st.size ∧
+    asum (outerC ts st en hm k t acc cnt).2 + acc.size = asum cnt + (outerC ts st en hm k t acc cnt).1.size := by
+  fun_induction outerC ts st en hm k t acc cnt with
+  | case1 k t acc cnt hk t1 r htrue ih =>
+    obtain ⟨a1, a2⟩ := insideC_inv ts (en[k]'(hm ▸ hk)) k t1 acc cnt (by omega)
+    have a1' : r.2.2.2.size = cnt.size := a1
+    have a2' : asum r.2.2.2 + acc.size = asum cnt + r.2.2.1.size := a2
+    obtain ⟨b1, b2⟩ := ih (by rw [a1', hc])
+    exact ⟨b1, by omega⟩
+  | case2 k t acc cnt hk t1 r hfalse =>
+    obtain ⟨a1, a2⟩ := insideC_inv ts (en[k]'(hm ▸ hk)) k t1 acc cnt (by omega)
+    exact ⟨by show r.2.2.2.size = st.size; rw [show r.2.2.2.size = cnt.size from a1, hc], a2⟩
+  | case3 k t acc cnt hk => exact ⟨hc, rfl⟩
+
+theorem asum_replicate (n : Nat) : asum (Array.replicate n 0) = 0 := by
+  simp [asum]
+
+/-- `jitrestrict_with_count`: one counter per interval, and the counters add up to the number of
+selected samples -/
+theorem restrictCount_counts (ts st en : Array Int) (hm : st.size = en.size) :
+    (jitrestrictCount ts st en hm).2.size = st.size ∧
+    asum (jitrestrictCount ts st en hm).2 = (jitrestrictCount ts st en hm).1.size := by
+  unfold jitrestrictCount
+  have := outerC_inv ts st en hm (lead ts en 0) 0 #[] (Array.replicate st.size 0) (by simp)
+  rw [asum_replicate] at this
+  exact ⟨this.1, by simpa using this.2⟩
+
+theorem countK_safe (ts dat st en : Array Int) (hm : st.size = en.size) (countin : Array Nat) (bs : Int)
+    (k t : Nat) (out) (hsz : countin.size = st.size) (hsum : asum countin = ts.size) (ht : t = psum countin k) :
+    ∃ r, countK ts dat st en hm countin bs k t out = .ok r := by
+  induction hn : st.size - k generalizing k t out with
+  | zero =>
+    unfold countK
+    have : ¬ k < st.size := by omega
+    simp [this]
+  | succ n ih =>
+    have hk : k < st.size := by omega
+    have hkc : k < countin.size := by omega
+    unfold countK
+    have hr : rdN countin k = .ok countin[k] := by simp [rdN, hkc]
+    have hle : t + countin[k] ≤ ts.size := by
+      have := psum_le_asum countin (k+1)
+      rw [psum_succ countin k hkc, ← ht, hsum] at this
+      exact this
+    simp only [dif_pos hk, hr, bind, Except.bind, dif_pos hle]
+    exact ih (k+1) (t + countin[k]) _ (by rw [psum_succ countin k hkc, ← ht]) (by omega)
+
+/-- **`jitcount` / `_jitbin_array` never index outside their arrays**: for ANY timestamps, data,
+interval arrays of equal length and bin size — every read `time_array[t]`, `count[k]`, every write
+into the preallocated bins — the model's checked reads never fail -/
+theorem jitbin_safe (ts dat st en : Array Int) (hm : st.size = en.size) (bs : Int) :
+    ∃ r, jitbin ts dat st en hm bs = .ok r := by
+  unfold jitbin
+  obtain ⟨h1, h2⟩ := restrictCount_counts ts st en hm
+  exact countK_safe _ _ st en hm _ bs 0 0 #[] h1 (by simpa using h2) (by simp [psum])
+
+theorem vfK_safe (ts tt : Array Int) (count ctarget : Array Nat) (mode m : Nat) (k : Nat) (idx)
+    (hc : count.size = m) (hd : ctarget.size = m) (hcs : asum count = ts.size) (hds : asum ctarget = tt.size) :
+    ∃ r, vfK ts tt count ctarget mode m k idx = .ok r := by
+  induction hn : m - k generalizing k idx with
+  | zero =>
+    unfold vfK
+    have : ¬ k < m := by omega
+    simp [this]
+  | succ n ih =>
+    have hk : k < m := by omega
+    unfold vfK
+    have hr1 : rdN count k = .ok (count[k]'(by omega)) := by simp [rdN, show k < count.size by omega]
+    have hr2 : rdN ctarget k = .ok (ctarget[k]'(by omega)) := by simp [rdN, show k < ctarget.size by omega]
+    have hle1 : psum count k + count[k]'(by omega) ≤ ts.size := by
+      have := psum_le_asum count (k+1)
+      rw [psum_succ count k (by omega), hcs] at this; exact this
+    have hle2 : psum ctarget k + ctarget[k]'(by omega) ≤ tt.size := by
+      have := psum_le_asum ctarget (k+1)
+      rw [psum_succ ctarget k (by omega), hds] at this; exact this
+    simp only [dif_pos hk, hr1, hr2, bind, Except.bind]
+    split
+    · rename_i hpos
+      rw [dif_pos ⟨hle1, hle2⟩, dif_pos (by omega)]
+      exact ih (k+1) _ (by omega)
+    · exact ih (k+1) _ (by omega)
+
+/-- **`jitvaluefrom` never indexes outside its arrays and never reads an unassigned local** — under
+what its only caller guarantees: `count` / `count_target` are the per-interval counters returned by
+`jitrestrict_with_count` for the two time arrays (one counter per interval, adding up to the array
+lengths).  Any timestamps, any mode. -/
+theorem valuefrom_safe (ts tt : Array Int) (count ctarget : Array Nat) (m mode : Nat)
+    (hc : count.size = m) (hd : ctarget.size = m) (hcs : asum count = ts.size) (hds : asum ctarget = tt.size) :
+    ∃ r, jitvaluefrom ts tt count ctarget m mode = .ok r := by
+  unfold jitvaluefrom
+  simp only
+  split
+  · exact vfK_safe ts tt count ctarget mode m 0 _ hc hd hcs hds
+  · exact ⟨_, rfl⟩
+
+/-- the callers' guarantee is met by the counters `jitrestrict_with_count` actually returns -/
+theorem valuefrom_safe_on_restricted (ts0 tt0 st en : Array Int) (hm : st.size = en.size) (mode : Nat) :
+    let rs := jitrestrictCount ts0 st en hm
+    let rt := jitrestrictCount tt0 st en hm
+    ∃ r, jitvaluefrom (rs.1.map (ts0.getD · 0)) (rt.1.map (tt0.getD · 0)) rs.2 rt.2 st.size mode = .ok r := by
+  intro rs rt
+  obtain ⟨a1, a2⟩ := restrictCount_counts ts0 st en hm
+  obtain ⟨b1, b2⟩ := restrictCount_counts tt0 st en hm
+  exact valuefrom_safe _ _ _ _ _ _ a1 b1 (by simpa using a2) (by simpa using b2)
+
+theorem pcK_safe (ts tt : Array Int) (c0 c1 : Array Nat) (w0 w1 m k : Nat) (out)
+    (h0 : c0.size = m) (h1 : c1.size = m) (hs0 : asum c0 = ts.size) (hs1 : asum c1 = tt.size) :
+    ∃ r, pcK ts tt c0 c1 w0 w1 m k out = .ok r := by
+  induction hn : m - k generalizing k out with
+  | zero =>
+    unfold pcK
+    have : ¬ k < m := by omega
+    simp [this]
+  | succ n ih =>
+    have hk : k < m := by omega
+    unfold pcK
+    have hr1 : rdN c0 k = .ok (c0[k]'(by omega)) := by simp [rdN, show k < c0.size by omega]
+    have hr2 : rdN c1 k = .ok (c1[k]'(by omega)) := by simp [rdN, show k < c1.size by omega]
+    have hle1 : psum c0 k + c0[k]'(by omega) ≤ ts.size := by
+      have := psum_le_asum c0 (k+1)
+      rw [psum_succ c0 k (by omega), hs0] at this; exact this
+    have hle2 : psum c1 k + c1[k]'(by omega) ≤ tt.size := by
+      have := psum_le_asum c1 (k+1)
+      rw [psum_succ c1 k (by omega), hs1] at this; exact this
+    simp only [dif_pos hk, hr1, hr2, bind, Except.bind]
+    split
+    · rename_i hpos
+      rw [dif_pos ⟨hle1, hle2⟩, dif_pos (by omega)]
+      exact ih (k+1) _ (by omega)
+    · exact ih (k+1) _ (by omega)
+
+/-- **`_jitcontinuous_perievent` stays inside its arrays** for any series, events, interval arrays of
+equal length and window sizes -/
+theorem pericont_safe (ts tt st en : Array Int) (hm : st.size = en.size) (w0 w1 : Nat) :
+    ∃ r, continuousPerievent ts tt st en hm w0 w1 = .ok r := by
+  unfold continuousPerievent
+  obtain ⟨a1, a2⟩ := restrictCount_counts ts st en hm
+  obtain ⟨b1, b2⟩ := restrictCount_counts tt st en hm
+  obtain ⟨r, hr⟩ := pcK_safe ((jitrestrictCount ts st en hm).1.map (fun i => ts.getD i 0))
+    ((jitrestrictCount tt st en hm).1.map (fun i => tt.getD i 0)) (jitrestrictCount ts st en hm).2
+    (jitrestrictCount tt st en hm).2 w0 w1 st.size 0 #[] a1 b1 (by simpa using a2) (by simpa using b2)
+  simp only [bind, Except.bind, hr, pure, Except.pure]
+  exact ⟨_, rfl⟩
+
+theorem en_mono' (st en : Array Int) (hm : st.size = en.size) (hc : Canon st en hm) (a b : Nat) (hab : a ≤ b) (hb : b < en.size) :
+    en[a]'(by omega) ≤ en[b] := by
+  induction b with
+  | zero => have : a = 0 := by omega
+            subst this; exact Int.le_refl _
+  | succ b ih =>
+    by_cases h : a = b + 1
+    · subst h; exact Int.le_refl _
+    · have h1 := ih (by omega) (by omega)
+      have h2 := hc.2 b (by omega)
+      have h3 := hc.1 (b + 1) (by omega)
+      omega
+
+theorem en_mono (st en : Array Int) (hm : st.size = en.size) (hc : Canon st en hm) (a d : Nat) (h : a + d < en.size) :
+    en[a]'(by omega) ≤ en[a + d] := by
+  induction d with
+  | zero => exact Int.le_refl _
+  | succ d ih =>
+    have h1 := ih (by omega)
+    have h2 := hc.2 (a + d) (by omega)
+    have h3 := hc.1 (a + d + 1) (by omega)
+    have e : a + (d + 1) = a + d + 1 := by omega
+    simp only [e]; omega
+
+theorem thrLoop_safe (ts : Array Int) (ix : Array Bool) (st en : Array Int) (hm : st.size = en.size)
+    (hc : Canon st en hm) (hix : ix.size = ts.size)
+    (hin : ∀ i, (h : i < ts.size) → InIv st en hm ts[i]) (t : Nat) (s : ThrSt) (ht : 1 ≤ t) (hk : s.k < en.size) :
+    ∃ r, thrLoop ts ix en t s = .ok r := by
+  induction hn : ts.size - t generalizing t s with
+  | zero =>
+    unfold thrLoop
+    have : ¬ t + 1 < ts.size := by omega
+    simp [this]
+  | succ n ih =>
+    unfold thrLoop
+    by_cases h : t + 1 < ts.size
+    · have r1 : rd ts t = .ok ts[t] := by simp [rd, show t < ts.size by omega]
+      have r2 : rd ts (t-1) = .ok (ts[t-1]'(by omega)) := by simp [rd, show t - 1 < ts.size by omega]
+      have r3 : rd en s.k = .ok en[s.k] := by simp [rd, hk]
+      have r4 : rdB ix t = .ok (ix[t]'(by omega)) := by simp [rdB, show t < ix.size by omega]
+      have r5 : rdB ix (t-1) = .ok (ix[t-1]'(by omega)) := by simp [rdB, show t - 1 < ix.size by omega]
+      simp only [dif_pos h, r1, r2, r3, r4, r5, bind, Except.bind]
+      split
+      · rename_i hgt
+        apply ih (t+1) _ (by omega) _ (by omega)
+        -- the sample lies in some interval j; it is beyond interval k, hence j > k
+        obtain ⟨j, hj, hj1, hj2⟩ := hin t (by omega)
+        show s.k + 1 < en.size
+        have hjk : ¬ j ≤ s.k := by
+          intro hle
+          have := en_mono' st en hm hc j s.k hle hk
+          omega
+        omega
+      · exact ih (t+1) _ (by omega) hk (by omega)
+    · simp [h]
+
+/-- **`jitthreshold` stays inside its arrays for every series with at least two samples** that is well
+formed on a canonical support (what `Tsd.threshold` passes).  The sizes 0 and 1 are the open finding
+C15-threshold-unguarded (`threshold_oob_witness`). -/
+theorem threshold_safe (ts : Array Int) (ix : Array Bool) (st en : Array Int) (hm : st.size = en.size)
+    (hc : Canon st en hm) (hn : 2 ≤ ts.size) (hix : ix.size = ts.size)
+    (hin : ∀ i, (h : i < ts.size) → InIv st en hm ts[i]) :
+    ∃ r, jitthreshold ts ix st en = .ok r := by
+  obtain ⟨j0, hj0, hl0, _⟩ := hin 0 (by omega)
+  have hst : 0 < st.size := by omega
+  have hlead : thrLead ts st 0 = .ok 0 := by
+    unfold thrLead
+    have h0 : ¬ ts[0] < st[0] := by
+      have : st[0] ≤ st[j0] := by
+        rcases Nat.eq_zero_or_pos j0 with rfl | hp
+        · exact Int.le_refl _
+        · obtain ⟨d, rfl⟩ : ∃ d, j0 = 0 + d := ⟨j0, by omega⟩
+          have h1 := en_mono st en hm hc 0 d (by omega)
+          have h2 := hc.1 0 hst
+          have h3 := hc.2 (0 + d - 1) (by omega)
+          have h4 := en_mono st en hm hc 0 (d - 1) (by omega)
+          have e1 : 0 + d - 1 + 1 = 0 + d := by omega
+          have e2 : 0 + (d - 1) = 0 + d - 1 := by omega
+          simp only [e1] at h3
+          simp only [e2] at h4
+          omega
+      omega
+    simp [hst, show 0 < ts.size by omega, h0]
+  unfold jitthreshold
+  have r1 : rdB ix 0 = .ok (ix[0]'(by omega)) := by simp [rdB, show 0 < ix.size by omega]
+  have r2 : rd ts 0 = .ok (ts[0]'(by omega)) := by simp [rd, show 0 < ts.size by omega]
+  simp only [hlead, r1, r2, bind, Except.bind]
+  obtain ⟨s, hs⟩ := thrLoop_safe ts ix st en hm hc hix hin 1
+    (thrInit ts.size (ix[0]'(by omega)) (ts[0]'(by omega)) 0) (by omega) (by simpa [thrInit, ← hm] using hst)
+  rw [hs]
+  have hge : ts.size ≥ 2 := hn
+  simp only [hge, if_true]
+  have r3 : rdB ix (ts.size - 1) = .ok (ix[ts.size - 1]'(by omega)) := by simp [rdB, show ts.size - 1 < ix.size by omega]
+  have r4 : rdB ix (ts.size - 1 - 1) = .ok (ix[ts.size - 1 - 1]'(by omega)) := by simp [rdB, show ts.size - 1 - 1 < ix.size by omega]
+  have r5 : rd ts (ts.size - 1) = .ok (ts[ts.size - 1]'(by omega)) := by simp [rd, show ts.size - 1 < ts.size by omega]
+  have r6 : rd ts (ts.size - 1 - 1) = .ok (ts[ts.size - 1 - 1]'(by omega)) := by simp [rd, show ts.size - 1 - 1 < ts.size by omega]
+  simp only [r3, r4, r5, r6, pure, Except.pure]
+  exact ⟨_, rfl⟩
+
 
 end Pyn.C15
